@@ -9,6 +9,8 @@ package tmrun
 import (
 	"context"
 	"encoding/hex"
+	"encoding/json"
+	"os"
 	"net/http"
 	"net/http/httptest"
 	"reflect"
@@ -34,22 +36,44 @@ import (
 	"verifh/hutil"
 )
 
+// HV: one header / metadata entry / attachment. Shape: "s" a string (Vals[0]); "l" a list of
+// strings (gRPC / HTTP multi-value; dubbo: a []string attachment as the triple protocol hands
+// them over); "o" a value that is neither (dubbo only).
+type HV struct {
+	Key   string   `json:"key"`   // hex
+	Shape string   `json:"shape"` // s | l | o
+	Vals  []string `json:"vals"`  // hex
+}
+
 type CCase struct {
 	ID        int    `json:"id"`
 	Kind      string `json:"kind"`      // grpc | gin | dubbo
-	Roundtrip bool   `json:"roundtrip"` // sender half of the integration produced the headers
-	Key       string `json:"key"`       // hex; the single key the headers are built with otherwise
+	Roundtrip bool   `json:"roundtrip"` // the sender half ran with Xid on top of Hdrs
+	Hdrs      []HV   `json:"hdrs"`      // roundtrip: what the outgoing context / request / invocation already holds; else: what the receiver is handed
 	Xid       string `json:"xid"`       // hex
 	// observed
-	Ran       bool     `json:"ran"`    // the callee handler ran
-	Seata     bool     `json:"seata"`  // its context is a seata context
-	Got       string   `json:"got"`    // hex of tm.GetXID in the callee
-	Inner     string   `json:"inner"`  // hex of the xid inside the callee's Required scope
-	Role      string   `json:"role"`   // role inside that scope
-	Reqs      []string `json:"reqs"`   // requests the coordinator received while the callee ran: kind:xid-or-name
-	Status    int      `json:"status"` // gin: http status
-	Ret       string   `json:"ret"`    // class of the callee's WithGlobalTx
-	Panicked  bool     `json:"panicked"`
+	Ran      bool     `json:"ran"`    // the callee handler ran
+	Seata    bool     `json:"seata"`  // its context is a seata context
+	Got      string   `json:"got"`    // hex of tm.GetXID in the callee
+	Inner    string   `json:"inner"`  // hex of the xid inside the callee's Required scope
+	Role     string   `json:"role"`   // role inside that scope
+	Reqs     []string `json:"reqs"`   // requests the coordinator received while the callee ran: kind:xid-or-name
+	Status   int      `json:"status"` // gin: http status
+	Ret      string   `json:"ret"`    // class of the callee's WithGlobalTx
+	Panicked bool     `json:"panicked"`
+}
+
+func unhex(s string) string {
+	b, _ := hex.DecodeString(s)
+	return string(b)
+}
+
+func (h HV) strs() []string {
+	out := make([]string, len(h.Vals))
+	for i, v := range h.Vals {
+		out[i] = unhex(v)
+	}
+	return out
 }
 
 var (
@@ -113,23 +137,42 @@ func runCarrier(c *CCase) {
 			c.Panicked = true
 		}
 	}()
-	key, _ := hex.DecodeString(c.Key)
-	xidb, _ := hex.DecodeString(c.Xid)
-	xid := string(xidb)
+	xid := unhex(c.Xid)
 	fail := c.ID%3 == 0
 	clientCtx := tm.InitSeataContext(context.Background())
 	tm.SetXID(clientCtx, xid)
 	switch c.Kind {
 	case "grpc":
-		var md metadata.MD
+		pre := metadata.MD{}
+		for _, h := range c.Hdrs {
+			if vs := h.strs(); len(vs) > 0 {
+				pre.Append(unhex(h.Key), vs...)
+			} else {
+				pre.Append(unhex(h.Key))
+			}
+		}
+		md := pre
 		if c.Roundtrip {
-			_ = sgrpc.ClientTransactionInterceptor(clientCtx, "/svc/m", nil, nil, nil,
+			// the caller's outgoing context already carries metadata (e.g. forwarded from its own
+			// incoming call): half of it set as a whole, half appended key by key
+			out := clientCtx
+			if len(pre) > 0 {
+				if c.ID%2 == 0 {
+					out = metadata.NewOutgoingContext(out, pre.Copy())
+				} else {
+					for k, vs := range pre {
+						for _, v := range vs {
+							out = metadata.AppendToOutgoingContext(out, k, v)
+						}
+					}
+				}
+			}
+			md = nil
+			_ = sgrpc.ClientTransactionInterceptor(out, "/svc/m", nil, nil, nil,
 				func(ctx context.Context, method string, req, reply interface{}, cc *grpc.ClientConn, opts ...grpc.CallOption) error {
 					md, _ = metadata.FromOutgoingContext(ctx)
 					return nil
 				})
-		} else {
-			md = metadata.Pairs(string(key), xid)
 		}
 		in := metadata.NewIncomingContext(context.Background(), md.Copy())
 		_, _ = sgrpc.ServerTransactionInterceptor(in, nil, &grpc.UnaryServerInfo{FullMethod: "/svc/m"},
@@ -146,10 +189,13 @@ func runCarrier(c *CCase) {
 			g.Status(http.StatusOK)
 		})
 		req := httptest.NewRequest(http.MethodGet, "/m", nil)
+		for _, h := range c.Hdrs {
+			for _, v := range h.strs() {
+				req.Header.Add(unhex(h.Key), v)
+			}
+		}
 		if c.Roundtrip {
 			req.Header.Set(constant.XidKey, tm.GetXID(clientCtx))
-		} else {
-			req.Header.Set(string(key), xid)
 		}
 		rec := httptest.NewRecorder()
 		r.ServeHTTP(rec, req)
@@ -157,15 +203,25 @@ func runCarrier(c *CCase) {
 	case "dubbo":
 		f := sdubbo.GetDubboTransactionFilter()
 		att := map[string]interface{}{}
+		for _, h := range c.Hdrs {
+			switch h.Shape {
+			case "s":
+				att[unhex(h.Key)] = h.strs()[0]
+			case "l":
+				att[unhex(h.Key)] = h.strs()
+			default:
+				att[unhex(h.Key)] = []interface{}{42, nil}[len(h.Key)%2]
+			}
+		}
 		if c.Roundtrip {
-			inv := invocation.NewRPCInvocation("m", nil, map[string]interface{}{})
+			inv := invocation.NewRPCInvocation("m", nil, att)
+			att2 := map[string]interface{}{}
 			f.Invoke(clientCtx, &capInvoker{f: func(ctx context.Context, inv protocol.Invocation) {
 				for k, v := range inv.Attachments() {
-					att[k] = v
+					att2[k] = v
 				}
 			}}, inv)
-		} else {
-			att[string(key)] = xid
+			att = att2
 		}
 		inv2 := invocation.NewRPCInvocation("m", nil, att)
 		f.Invoke(context.Background(), &capInvoker{f: func(ctx context.Context, inv protocol.Invocation) {
@@ -220,34 +276,109 @@ func hexDigits(r *hutil.Rng, n int) string {
 	return string(b)
 }
 
-// GenCarrier: round trips through both halves of each integration, every accepted
-// spelling, random case mixes, and spellings that must NOT be accepted.
+func hx(s string) string { return hex.EncodeToString([]byte(s)) }
+
+func hv(key, shape string, vals ...string) HV {
+	h := HV{Key: hx(key), Shape: shape, Vals: []string{}}
+	for _, v := range vals {
+		h.Vals = append(h.Vals, hx(v))
+	}
+	return h
+}
+
+var otherKeys = []string{"authorization", "x-request-id", "Trace-Id", "tx_xid2", "XID", "TX-XID", "seata_xid_", "user"}
+var badKeys = []string{"TX-XID", "XID", "tx_xid2", "x-tx-xid", "TXXID", "Seata-Xid", "seata_xid_", "txxid"}
+
+// a value of a random shape holding x (dubbo: also wrapped / ill-typed; grpc, gin: multi-values)
+func shaped(r *hutil.Rng, kind, key, x string) HV {
+	switch r.Intn(6) {
+	case 0, 1, 2:
+		return hv(key, "s", x)
+	case 3:
+		return hv(key, "l", x)
+	case 4:
+		return hv(key, "l", x, genXid(r))
+	}
+	if kind == "dubbo" {
+		if r.Chance(1, 2) {
+			return hv(key, "o")
+		}
+		return hv(key, "l")
+	}
+	return hv(key, "l", x, "")
+}
+
+// headers already present: other keys, stale xids under accepted and unaccepted spellings,
+// in every value shape; keys distinct for dubbo (attachments are a map)
+func genPre(r *hutil.Rng, kind string) []HV {
+	var out []HV
+	seen := map[string]bool{}
+	n := r.Intn(4)
+	for i := 0; i < n; i++ {
+		var k string
+		switch r.Intn(3) {
+		case 0:
+			k = otherKeys[r.Intn(len(otherKeys))]
+		case 1:
+			k = xidKeys[r.Intn(len(xidKeys))]
+		default:
+			k = mixCase(r, xidKeys[r.Intn(len(xidKeys))])
+		}
+		if kind == "dubbo" && seen[k] {
+			continue
+		}
+		seen[k] = true
+		out = append(out, shaped(r, kind, k, "stale-"+genXid(r)))
+	}
+	return out
+}
+
+// GenCarrier: round trips through both halves of each integration on outgoing contexts /
+// requests / invocations that already hold headers; receivers handed one header under every
+// accepted spelling and value shape, random case mixes, spellings that must NOT be accepted,
+// and several headers at once.
 func GenCarrier(tier string, seed uint64) []*CCase {
 	var cases []*CCase
 	r := hutil.NewRng(seed ^ 0xca771e7)
-	add := func(kind string, rt bool, key, xid string) {
-		cases = append(cases, &CCase{ID: len(cases) + 1, Kind: kind, Roundtrip: rt,
-			Key: hex.EncodeToString([]byte(key)), Xid: hex.EncodeToString([]byte(xid)), Reqs: []string{}})
+	add := func(kind string, rt bool, hdrs []HV, xid string) {
+		if hdrs == nil {
+			hdrs = []HV{}
+		}
+		cases = append(cases, &CCase{ID: len(cases) + 1, Kind: kind, Roundtrip: rt, Hdrs: hdrs, Xid: hx(xid), Reqs: []string{}})
 	}
 	n := 40
 	if tier == "thorough" {
 		n = 3000
 	}
+	const sample = "192.168.0.1:8091:2000042948"
 	for _, kind := range []string{"grpc", "gin", "dubbo"} {
-		add(kind, true, "", "")
+		add(kind, true, nil, "")
 		for _, k := range xidKeys {
-			add(kind, false, k, genXid(r))
-			add(kind, false, k, "192.168.0.1:8091:2000042948")
+			// every accepted (and for grpc/gin: unaccepted) spelling x every value shape
+			add(kind, false, []HV{hv(k, "s", sample)}, "")
+			add(kind, false, []HV{hv(k, "l", sample)}, "")
+			add(kind, false, []HV{hv(k, "l", sample, "second")}, "")
+			add(kind, false, []HV{hv(k, "l", "", sample)}, "")
+			if kind == "dubbo" {
+				add(kind, false, []HV{hv(k, "l")}, "")
+				add(kind, false, []HV{hv(k, "o")}, "")
+			}
+			add(kind, false, []HV{hv(k, "s", genXid(r))}, "")
+			// a stale xid under this spelling is already in the outgoing context
+			add(kind, true, []HV{hv(k, "s", "stale-xid")}, sample)
+			add(kind, true, []HV{hv(k, "l", "stale-xid")}, sample)
+			add(kind, true, []HV{hv("user", "s", "u1"), hv(k, "s", "stale-xid")}, genXid(r)+"n")
 		}
 		for i := 0; i < n; i++ {
-			add(kind, true, "", genXid(r))
-			add(kind, false, mixCase(r, xidKeys[r.Intn(len(xidKeys))]), genXid(r))
+			add(kind, true, nil, genXid(r))
+			add(kind, true, genPre(r, kind), genXid(r)+"x")
+			k := mixCase(r, xidKeys[r.Intn(len(xidKeys))])
+			add(kind, false, []HV{shaped(r, kind, k, genXid(r))}, "")
+			if i%2 == 0 {
+				add(kind, false, genPre(r, kind), "")
+			}
 			if i%4 == 0 {
-				bad := []string{"TX-XID", "XID", "tx_xid2", "x-tx-xid", "TXXID", "Seata-Xid", "seata_xid_", "tx xid"}[r.Intn(8)]
-				if kind == "grpc" && bad == "tx xid" {
-					bad = "txxid" // metadata keys with a space are rejected by validation elsewhere; keep to token keys
-				}
-				add(kind, false, bad, genXid(r))
+				add(kind, false, []HV{shaped(r, kind, badKeys[r.Intn(len(badKeys))], genXid(r))}, "")
 			}
 		}
 	}
@@ -263,6 +394,22 @@ func RunCarrier(args map[string]string) {
 	tier := hutil.ArgStr(args, "tier", "quick")
 	seed := hutil.ArgU64(args, "seed", 1)
 	cases := GenCarrier(tier, seed)
+	if in := hutil.ArgStr(args, "in", ""); in != "" {
+		b, err := os.ReadFile(in)
+		if err != nil {
+			panic(err)
+		}
+		cases = nil
+		if err := json.Unmarshal(b, &cases); err != nil {
+			panic(err)
+		}
+		for i, c := range cases {
+			if c.ID == 0 {
+				c.ID = i + 1
+			}
+			c.Reqs = []string{}
+		}
+	}
 	p := gomonkey.ApplyMethod(reflect.TypeOf(getty.GetGettyRemotingClient()), "SendSyncRequest", carrierStub)
 	defer p.Reset()
 	tm.InitTm(tm.TmConfig{CommitRetryCount: 1, RollbackRetryCount: 1, DefaultGlobalTransactionTimeout: 60 * time.Second})
